@@ -13,7 +13,14 @@ RULE = ("Integers sweep every width boundary (0xfc/0xfd/0xffff/0x10000/0xfffffff
         "plus boundary counts; strict protocol decoders on the bytes the serialize-only messages emit, on a recorded "
         "mainnet version message and on damaged copies; SimpleNode.wait_for / handshake on in-memory streams of 0..5 "
         "envelopes before the wanted one (valid, truncated, byte-corrupted, other network, wanted never arriving); "
-        "Block.parse_header(hex=...) on valid / upper-case / white-space / odd / non-hex text.")
+        "Block.parse_header(hex=...) on valid / upper-case / white-space / odd / non-hex text. After the mutation triage: "
+        "every integer codec at 256^l-1 / 256^l / -1 / top bit for widths 0..33; every message class built with its required "
+        "arguments only (defaults) and the module constants; cfilter messages built here as BIP158 says (independent "
+        "SipHash-2-4 and Golomb-Rice coder): key of the parsed filter, membership through the message; every parser "
+        "started in the middle of a stream; item counts 0/1/2/0xfc/0xfd/0xfe/0x100/0xffff/0x10000 of headers, cfheaders, "
+        "cfcheckpt, getdata, var-strings; a non-zero transaction count after the first/middle/last header; compact targets "
+        "on both sides of negative / 2^256; header lists whose proof of work holds with intact and broken links. Cases are "
+        "laid out by reference encoders of this module, never by the library's own.")
 TRUSTED = ["hashlib (sha256) — hash256 is a universally quantified function in the theorems",
            "modelled, not verified: object plumbing of the message classes; real socket I/O is out of scope — SimpleNode "
            "runs on a BytesIO stream and a recording socket, time.time / randint are substituted from the harness",
@@ -47,7 +54,7 @@ def i_env_serialize(net, cmd, payload):
 def i_env_parse(net, s):
     st = BytesIO(s)
     e = network.NetworkEnvelope.parse(st, network=NETS[net])
-    assert e.magic == network.MAGIC[NETS[net]]
+    assert e.magic == REF_MAGIC[net]
     return [e.command, e.payload, st.read()]
 
 
@@ -457,14 +464,15 @@ def p_int_rt(n, l):
 def p_env_rt(net, cmd, payload, rest):
     e = network.NetworkEnvelope(cmd, payload, network=NETS[net])
     raw = e.serialize()
-    exp = network.MAGIC[NETS[net]] + cmd.ljust(12, b"\x00") + struct.pack("<I", len(payload)) + \
-        helper.hash256(payload)[:4] + payload
+    exp = REF_MAGIC[net] + cmd.ljust(12, b"\x00") + struct.pack("<I", len(payload)) + _h256(payload)[:4] + payload
     if raw != exp:
         return "envelope layout differs from the protocol"
     st = BytesIO(raw + rest)
     e2 = network.NetworkEnvelope.parse(st, network=NETS[net])
     if e2.command != cmd or e2.payload != payload or st.read() != rest:
         return "envelope does not round-trip"
+    if e2.magic != REF_MAGIC[net] or e2.serialize() != raw or e2.stream().read() != payload:
+        return "a parsed envelope does not serialise back to the bytes it was parsed from"
     for other in range(4):
         if other != net and not _raises(network.NetworkEnvelope.parse, BytesIO(raw), NETS[other]):
             return f"envelope for {NETS[net]} accepted as {NETS[other]}"
@@ -473,7 +481,7 @@ def p_env_rt(net, cmd, payload, rest):
 
 def p_env_reject(net, cmd, payload, kind, pos, val):
     """kind 0: truncate to pos bytes; 1: xor byte pos with val (outside the command field)"""
-    raw = network.NetworkEnvelope(cmd, payload, network=NETS[net]).serialize()
+    raw = _lay_env((cmd, payload, REF_MAGIC[net]))
     if kind == 0:
         pos %= len(raw)
         bad = raw[:pos]
@@ -494,8 +502,7 @@ def p_env_reject(net, cmd, payload, kind, pos, val):
 def p_env_short(net, cmd, payload, cut):
     """declared length = len(payload) but only payload[:cut] follows, with the checksum of what follows"""
     part = payload[:cut]
-    raw = network.MAGIC[NETS[net]] + cmd.ljust(12, b"\x00") + struct.pack("<I", len(payload)) + \
-        helper.hash256(part)[:4] + part
+    raw = REF_MAGIC[net] + cmd.ljust(12, b"\x00") + struct.pack("<I", len(payload)) + _h256(part)[:4] + part
     if len(part) == len(payload):
         return None
     try:
@@ -520,12 +527,12 @@ def p_layouts(v, sv, ts, rip, rp, sip, sp, nonce, ua, lb, relay, n, h1, h2, type
     got = i_version_serialize(v, sv, ts, sv, rip, rp, sv, sip, sp, nonce, ua, lb, relay)
     exp = struct.pack("<IQQ", v, sv, ts) + struct.pack("<Q", sv) + b"\x00" * 10 + b"\xff\xff" + rip + \
         struct.pack("<H", rp) + struct.pack("<Q", sv) + b"\x00" * 10 + b"\xff\xff" + sip + struct.pack("<H", sp) + \
-        nonce + helper.encode_varint(len(ua)) + ua + struct.pack("<I", lb) + (b"\x01" if relay else b"\x00")
+        nonce + _ref_varint(len(ua)) + ua + struct.pack("<I", lb) + (b"\x01" if relay else b"\x00")
     if got != exp:
         return "version message layout"
-    if i_getheaders_serialize(v, n, h1, h2) != struct.pack("<I", v) + helper.encode_varint(n) + h1[::-1] + h2[::-1]:
+    if i_getheaders_serialize(v, n, h1, h2) != struct.pack("<I", v) + _ref_varint(n) + h1[::-1] + h2[::-1]:
         return "getheaders layout"
-    exp = helper.encode_varint(len(types)) + b"".join(struct.pack("<I", t) + i[::-1] for t, i in zip(types, ids))
+    exp = _ref_varint(len(types)) + b"".join(struct.pack("<I", t) + i[::-1] for t, i in zip(types, ids))
     if i_getdata_serialize(types, ids) != exp:
         return "getdata layout"
     t = v % 256
@@ -541,25 +548,25 @@ def p_msgs_rt(nonce, hdrs, t, stop, prev, hashes, fitems):
         m = cls.parse(BytesIO(nonce))
         if m.nonce != nonce or m.serialize() != nonce:
             return cls.__name__ + " does not round-trip"
-    raw = helper.encode_varint(len(hdrs)) + b"".join(h + b"\x00" for h in hdrs)
+    raw = _ref_varint(len(hdrs)) + b"".join(h + b"\x00" for h in hdrs)
     m = network.HeadersMessage.parse(BytesIO(raw))
     if [x.serialize() for x in m.headers] != list(hdrs):
         return "headers message does not round-trip"
-    raw = bytes([t]) + stop[::-1] + prev + helper.encode_varint(len(hashes)) + b"".join(hashes)
+    raw = bytes([t]) + stop[::-1] + prev + _ref_varint(len(hashes)) + b"".join(hashes)
     m = compactfilter.CFHeadersMessage.parse(BytesIO(raw))
     if (m.filter_type, m.stop_hash, m.previous_filter_header, list(m.filter_hashes)) != (t, stop, prev, list(hashes)):
         return "cfheaders does not round-trip"
     cur = prev
     for fh in hashes:
-        cur = helper.hash256(fh + cur)
+        cur = _h256(fh + cur)
     if m.last_header != cur:
         return "cfheaders chain"
-    raw = bytes([t]) + stop[::-1] + helper.encode_varint(len(hashes)) + b"".join(hashes)
+    raw = bytes([t]) + stop[::-1] + _ref_varint(len(hashes)) + b"".join(hashes)
     m = compactfilter.CFCheckPointMessage.parse(BytesIO(raw))
     if (m.filter_type, m.stop_hash, list(m.filter_headers)) != (t, stop, list(hashes)):
         return "cfcheckpt does not round-trip"
-    fb = compactfilter.serialize_gcs(sorted(fitems))
-    raw = bytes([t]) + stop[::-1] + helper.encode_varstr(fb)
+    fb = _ref_gcs(fitems)
+    raw = bytes([t]) + stop[::-1] + _ref_varint(len(fb)) + fb
     m = compactfilter.CFilterMessage.parse(BytesIO(raw))
     if (m.filter_type, m.block_hash, m.filter_bytes) != (t, stop, fb) or m.cf.hashes != set(fitems):
         return "cfilter does not round-trip"
@@ -958,6 +965,345 @@ def p_node_stream(net, pre, final_cmd, final_payload, rest):
     return None
 
 
+# ---------------------------------------------------------------- hardening (mutation triage): independent builders
+
+M64 = (1 << 64) - 1
+GCS_P, GCS_M = 19, 784931                     # BIP158 basic filter parameters
+
+
+def _lay_getdata(items):
+    items = list(items)
+    return _ref_varint(len(items)) + b"".join(struct.pack("<I", t) + i[::-1] for t, i in items)
+
+
+def _ref_gcs(values):
+    """BIP158: N as CompactSize, then the Golomb-Rice (P = 19) coded differences of the sorted values, most significant
+    bit first, the last byte padded with zero bits"""
+    bits, last = [], 0
+    for x in sorted(values):
+        d, last = x - last, x
+        bits += [1] * (d >> GCS_P) + [0] + [(d >> (GCS_P - 1 - i)) & 1 for i in range(GCS_P)]
+    bits += [0] * (-len(bits) % 8)
+    return _ref_varint(len(values)) + bytes(
+        sum(b << (7 - k) for k, b in enumerate(bits[i:i + 8])) for i in range(0, len(bits), 8))
+
+
+def _rotl(x, b):
+    return ((x << b) | (x >> (64 - b))) & M64
+
+
+def _ref_siphash(key, msg):
+    """SipHash-2-4 (Aumasson / Bernstein reference), 16-byte key, 64-bit result"""
+    k0, k1 = struct.unpack("<QQ", key)
+    v = [k0 ^ 0x736f6d6570736575, k1 ^ 0x646f72616e646f6d, k0 ^ 0x6c7967656e657261, k1 ^ 0x7465646279746573]
+
+    def rnd():
+        v[0] = (v[0] + v[1]) & M64
+        v[1] = _rotl(v[1], 13) ^ v[0]
+        v[0] = _rotl(v[0], 32)
+        v[2] = (v[2] + v[3]) & M64
+        v[3] = _rotl(v[3], 16) ^ v[2]
+        v[0] = (v[0] + v[3]) & M64
+        v[3] = _rotl(v[3], 21) ^ v[0]
+        v[2] = (v[2] + v[1]) & M64
+        v[1] = _rotl(v[1], 17) ^ v[2]
+        v[2] = _rotl(v[2], 32)
+    full = len(msg) - len(msg) % 8
+    words = [msg[i:i + 8] for i in range(0, full, 8)] + [msg[full:].ljust(7, b"\x00") + bytes([len(msg) & 255])]
+    for w in words:
+        m = _le(w)
+        v[3] ^= m
+        rnd()
+        rnd()
+        v[0] ^= m
+    v[2] ^= 0xff
+    for _ in range(4):
+        rnd()
+    return v[0] ^ v[1] ^ v[2] ^ v[3]
+
+
+class _Spk:
+    """stands for a script: the filter only asks for raw_serialize()"""
+
+    def __init__(self, raw):
+        self.raw = raw
+
+    def raw_serialize(self):
+        return self.raw
+
+
+def _items32(seed, count, width=32):
+    """count pseudo-random strings of this width derived from a seed (so that a replay stays small)"""
+    out = []
+    for i in range(count):
+        b = b""
+        k = 0
+        while len(b) < width:
+            b += hashlib.sha256(seed + struct.pack("<IB", i, k)).digest()
+            k += 1
+        out.append(b[:width])
+    return out
+
+
+# ---------------------------------------------------------------- hardening: predicates
+
+def p_cfilter_key(t, bh, items, others, prefix, rest):
+    """a cfilter message built here as BIP158 says (key = first 16 bytes of the block hash as it is on the wire,
+    values = siphash(key, element) * N * M >> 64), parsed from the middle of a stream: the parsed filter has that key,
+    contains every element, and answers other queries as the reference does — through the message object"""
+    wire = bh[::-1]
+    key = wire[:16]
+    f = len(items) * GCS_M
+    vals = sorted((_ref_siphash(key, it) * f) >> 64 for it in items)
+    fb = _ref_gcs(vals)
+    raw = bytes([t]) + wire + _ref_varint(len(fb)) + fb
+    st = BytesIO(prefix + raw + rest)
+    st.read(len(prefix))
+    m = compactfilter.CFilterMessage.parse(st)
+    if st.read() != rest:
+        return "cfilter parse leaves the stream at the wrong place"
+    if (m.filter_type, m.block_hash, m.filter_bytes) != (t, bh, fb):
+        return "cfilter fields differ from the wire"
+    for how, msg in (("parsed", m), ("constructed", compactfilter.CFilterMessage(t, bh, fb))):
+        if msg.cf.key != key:
+            return (f"the filter of the {how} cfilter message has key {msg.cf.key.hex()} ({len(msg.cf.key)} bytes); BIP158: "
+                    f"the first 16 bytes of the block hash in wire order, {key.hex()}")
+        if msg.cf.hashes != set(vals) or msg.cf.f != f:
+            return f"the filter of the {how} cfilter message holds other values / another range than the wire"
+        for it in items:
+            if not _tryE(lambda: _Spk(it) in msg) is True:
+                return f"an element of the filter is not found through the {how} cfilter message (or the query raised)"
+        for o in others:
+            want = ((_ref_siphash(key, o) * f) >> 64) in set(vals)
+            got = _tryE(lambda: _Spk(o) in msg)
+            if got is ERR or got != want:
+                return f"membership query through the {how} cfilter message gives {got!r}, BIP158 says {want}"
+        if not (msg == m) or msg.hash() != _h256(fb):
+            return "cfilter message equality / hash"
+    return None
+
+
+DEFAULT_UA = b"/programmingblockchain:0.1/"
+
+
+def p_defaults(h1, h2, ts, nonce, payload):
+    """what each message is when only the required arguments are given (the documented defaults), and the module
+    constants callers pass in"""
+    zero32, ip0 = b"\x00" * 32, b"\x00" * 4
+    if [network.MAGIC.get(n) for n in NETS] != REF_MAGIC or len(network.MAGIC) != 4:
+        return "network magic table"
+    if [network.TX_DATA_TYPE, network.BLOCK_DATA_TYPE, network.FILTERED_BLOCK_DATA_TYPE, network.COMPACT_BLOCK_DATA_TYPE,
+            network.WITNESS_TX_DATA_TYPE, network.WITNESS_BLOCK_DATA_TYPE] != [1, 2, 3, 4, 0x40000001, 0x40000002]:
+        return "inventory type constants"
+    if compactfilter.BASIC_FILTER_TYPE != 0 or network.BASIC_FILTER_TYPE != 0:
+        return "basic filter type constant"
+    cmds = [(network.VersionMessage, b"version"), (network.VerAckMessage, b"verack"), (network.PingMessage, b"ping"),
+            (network.PongMessage, b"pong"), (network.GetHeadersMessage, b"getheaders"), (network.HeadersMessage, b"headers"),
+            (network.GetDataMessage, b"getdata"), (compactfilter.GetCFiltersMessage, b"getcfilters"),
+            (compactfilter.CFilterMessage, b"cfilter"), (compactfilter.GetCFHeadersMessage, b"getcfheaders"),
+            (compactfilter.CFHeadersMessage, b"cfheaders"), (compactfilter.GetCFCheckPointMessage, b"getcfcheckpt"),
+            (compactfilter.CFCheckPointMessage, b"cfcheckpt")]
+    for cls, c in cmds:
+        if cls.command != c:
+            return f"{cls.__name__}.command is {cls.command!r}"
+    # version
+    got = network.VersionMessage(timestamp=ts, nonce=nonce).serialize()
+    if got != _lay_version([70015, 0, ts, 0, ip0, 8333, 0, ip0, 8333, nonce, DEFAULT_UA, 0, 1]):
+        return "VersionMessage(timestamp, nonce): defaults are version 70015, no services, 0.0.0.0:8333 twice, height 0, relay"
+    # getheaders
+    if network.GetHeadersMessage(start_block=h1).serialize() != struct.pack("<I", 70015) + b"\x01" + h1[::-1] + zero32:
+        return "GetHeadersMessage(start_block): defaults are version 70015, one locator hash, zero stop hash"
+    if network.GetHeadersMessage(start_block=h1, end_block=h2).serialize() != \
+            struct.pack("<I", 70015) + b"\x01" + h1[::-1] + h2[::-1]:
+        return "GetHeadersMessage(start_block, end_block)"
+    if not _raises(network.GetHeadersMessage) or not _raises(lambda: network.GetHeadersMessage(end_block=h2)):
+        return "GetHeadersMessage without a start block did not raise"
+    if network.GetDataMessage().serialize() != b"\x00" or network.VerAckMessage().serialize() != b"":
+        return "empty getdata / verack"
+    # compact-filter requests
+    if compactfilter.GetCFiltersMessage(stop_hash=h1).serialize() != b"\x00" + struct.pack("<I", 1) + h1[::-1]:
+        return "GetCFiltersMessage(stop_hash): defaults are the basic filter type and start height 1"
+    if compactfilter.GetCFHeadersMessage(stop_hash=h1).serialize() != b"\x00" + struct.pack("<I", 0) + h1[::-1]:
+        return "GetCFHeadersMessage(stop_hash): defaults are the basic filter type and start height 0"
+    if compactfilter.GetCFCheckPointMessage(stop_hash=h1).serialize() != b"\x00" + h1[::-1]:
+        return "GetCFCheckPointMessage(stop_hash): default is the basic filter type"
+    for cls in (compactfilter.GetCFiltersMessage, compactfilter.GetCFHeadersMessage, compactfilter.GetCFCheckPointMessage):
+        if not _raises(cls) or not _raises(lambda: cls(filter_type=0)):
+            return cls.__name__ + " without a stop hash did not raise"
+    # envelope: mainnet unless told otherwise, on both sides
+    raw = network.NetworkEnvelope(b"ping", payload).serialize()
+    if raw != _lay_env((b"ping", payload, REF_MAGIC[0])):
+        return "NetworkEnvelope(command, payload) is not a mainnet envelope"
+    e = network.NetworkEnvelope.parse(BytesIO(raw))
+    if (e.command, e.payload, e.magic) != (b"ping", payload, REF_MAGIC[0]):
+        return "NetworkEnvelope.parse(stream) does not read a mainnet envelope"
+    for net in (1, 2, 3):
+        if not _raises(network.NetworkEnvelope.parse, BytesIO(_lay_env((b"ping", payload, REF_MAGIC[net])))):
+            return f"NetworkEnvelope.parse(stream) accepted a {NETS[net]} envelope"
+    # block header entry points
+    hraw = (h1 + h2 + h1)[:80]
+    want = [_le(hraw[:4]), hraw[4:36][::-1], hraw[36:68][::-1], _le(hraw[68:72]), hraw[72:76], hraw[76:80]]
+    if _hdr(block.Block.parse_header(BytesIO(hraw))) != want or _hdr(block.Block.parse_header(hex=hraw.hex())) != want \
+            or _hdr(block.Block.parse_header(stream=BytesIO(hraw))) != want:
+        return "Block.parse_header(stream) / (hex=...) disagree with the layout"
+    if not _raises(lambda: block.Block.parse_header(BytesIO(hraw), hex=hraw.hex())):
+        return "Block.parse_header with both a stream and hex did not raise"
+    return None
+
+
+def _parse_at(kind, net, st):
+    if kind == 0:
+        return helper.read_varint(st)
+    if kind == 1:
+        return helper.read_varstr(st)
+    if kind == 2:
+        e = network.NetworkEnvelope.parse(st, network=NETS[net])
+        return [e.command, e.payload, e.magic]
+    if kind == 3:
+        return _hdr(block.Block.parse_header(st))
+    cls = [network.HeadersMessage, network.PingMessage, network.PongMessage, compactfilter.CFilterMessage,
+           compactfilter.CFHeadersMessage, compactfilter.CFCheckPointMessage, network.VerAckMessage][kind - 4]
+    return _msgval(cls.parse(st))
+
+
+def p_mid_stream(kind, net, prefix, raw, rest):
+    """an object read from the middle of a stream (bytes before and after it) is the object read from a stream that
+    starts with it, and the stream is left right behind it"""
+    def run(pre):
+        st = BytesIO(pre + raw + rest)
+        st.read(len(pre))
+        return [_parse_at(kind, net, st), st.read()]
+    a, b = _tryE(run, b""), _tryE(run, prefix)
+    if a is ERR and b is ERR:
+        return None
+    if a is ERR or b is ERR:
+        return f"parser kind {kind}: {'raises' if b is ERR else 'succeeds'} after {len(prefix)} leading bytes, the opposite without"
+    from vp.sexp import canon
+    if canon(a) != canon(b):
+        return f"parser kind {kind}: a different result / stream position after {len(prefix)} leading bytes"
+    return None
+
+
+def p_count_boundary(kind, count, seed, rest):
+    """containers whose ITEM COUNT sits at a compact-size boundary"""
+    it = _items32(seed, count if kind < 4 else 3, 80 if kind == 0 else 32)
+    t, stop, prev = seed[0] if seed else 0, _items32(seed + b"s", 1)[0], _items32(seed + b"p", 1)[0]
+    if kind == 0:                                             # headers
+        st = BytesIO(_ref_varint(count) + b"".join(h + b"\x00" for h in it) + rest)
+        m = network.HeadersMessage.parse(st)
+        if len(m.headers) != count or st.read() != rest:
+            return f"headers message with {count} headers: {len(m.headers)} parsed or wrong stream position"
+        if any(h.serialize() != x for h, x in zip(m.headers, it)):
+            return f"headers message with {count} headers does not give the headers back"
+        return None
+    if kind == 1:                                             # cfheaders
+        st = BytesIO(bytes([t]) + stop[::-1] + prev + _ref_varint(count) + b"".join(it) + rest)
+        m = compactfilter.CFHeadersMessage.parse(st)
+        cur = prev
+        for fh in it:
+            cur = _h256(fh + cur)
+        if (m.filter_type, m.stop_hash, m.previous_filter_header, list(m.filter_hashes), m.last_header) != \
+                (t, stop, prev, it, cur) or st.read() != rest:
+            return f"cfheaders with {count} filter hashes does not round-trip"
+        return None
+    if kind == 2:                                             # cfcheckpt
+        st = BytesIO(bytes([t]) + stop[::-1] + _ref_varint(count) + b"".join(it) + rest)
+        m = compactfilter.CFCheckPointMessage.parse(st)
+        if (m.filter_type, m.stop_hash, list(m.filter_headers)) != (t, stop, it) or st.read() != rest:
+            return f"cfcheckpt with {count} filter headers does not round-trip"
+        return None
+    if kind == 3:                                             # getdata
+        m = network.GetDataMessage()
+        types = [[1, 2, 3, 4, 0x40000001, 0x40000002][x[0] % 6] for x in it]
+        for ty, x in zip(types, it):
+            m.add_data(ty, x)
+        raw = m.serialize()
+        if raw != _lay_getdata(zip(types, it)):
+            return f"getdata with {count} items differs from the layout"
+        if _ref_getdata_decode(raw + rest) != [[[a, b] for a, b in zip(types, it)], rest]:
+            return f"getdata with {count} items is not decoded back"
+        return None
+    if kind == 4:                                             # var-string / version user agent of `count` bytes
+        b = (b"".join(it) * (count // 96 + 1))[:count]
+        e = helper.encode_varstr(b)
+        if e != _ref_varint(count) + b:
+            return f"encode_varstr of {count} bytes"
+        st = BytesIO(e + rest)
+        if helper.read_varstr(st) != b or st.read() != rest:
+            return f"read_varstr of {count} bytes"
+        f = [70015, 1, 2, 3, b"\x01\x02\x03\x04", 8333, 4, b"\x05\x06\x07\x08", 8333, seed[:8].ljust(8, b"\x00"), b, 5, 1]
+        raw = i_version_serialize(*f)
+        if raw != _lay_version(f):
+            return f"version message with a user agent of {count} bytes"
+        return None
+    raise ValueError(kind)
+
+
+def p_headers_txcount(hdrs, j, cnt, rest):
+    """headers message whose j-th header is followed by the compact-size `cnt` (raw bytes) instead of a zero byte:
+    rejected unless it encodes zero"""
+    n = _ref_read_varint(cnt)[0]
+    raw = _ref_varint(len(hdrs)) + b"".join(h + (cnt if i == j else b"\x00") for i, h in enumerate(hdrs)) + rest
+    st = BytesIO(raw)
+    try:
+        m = network.HeadersMessage.parse(st)
+    except Exception:
+        return None if n != 0 else "headers message with zero transaction counts rejected"
+    if n != 0:
+        return f"headers message accepted although header {j} of {len(hdrs)} is followed by a transaction count of {n}"
+    if [h.serialize() for h in m.headers] != list(hdrs) or st.read() != rest:
+        return "headers message does not give the headers back"
+    return None
+
+
+def p_cfilter_eq(a, b):
+    """CFilterMessage.__eq__ is equality of (filter type, block hash, filter bytes), for parsed and constructed ones"""
+    ms = []
+    for t, bh, fb in (a, b):
+        ms.append(compactfilter.CFilterMessage(t, bh, fb))
+        ms.append(compactfilter.CFilterMessage.parse(BytesIO(bytes([t]) + bh[::-1] + _ref_varint(len(fb)) + fb)))
+    want = list(a) == list(b)
+    for x in ms[:2]:
+        for y in ms[2:]:
+            if (x == y) != want or (y == x) != want:
+                return f"cfilter messages compare {x == y}, their fields are {'equal' if want else 'different'}"
+    if not (ms[0] == ms[1]) or not (ms[2] == ms[3]) or ms[0].hash() != _h256(a[2]):
+        return "a parsed cfilter message differs from the one constructed from the same fields"
+    return None
+
+
+def p_handshake(net, now, rnd, peer, rest):
+    """SimpleNode.handshake on an in-memory stream: sends the default version message first, answers what the peer sends
+    (verack per version, pong per ping), returns right behind the peer's verack, raises when none arrives"""
+    magic, ip0 = REF_MAGIC[net], b"\x00" * 4
+    stream = b"".join(_lay_env((c, pl, magic)) for c, pl in peer) + rest
+    ver = _lay_version([70015, 0, now, 0, ip0, 8333, 0, ip0, 8333, struct.pack("<Q", rnd), DEFAULT_UA, 0, 1])
+    want_sent, used, done = [_lay_env((b"version", ver, magic))], 0, False
+    for c, pl in peer:
+        used += 24 + len(pl)
+        if c == b"version":
+            want_sent.append(_lay_env((b"verack", b"", magic)))
+        elif c == b"ping":
+            want_sent.append(_lay_env((b"pong", pl, magic)))
+        if c == b"verack":
+            done = True
+            break
+    n = _node(net, stream)
+    try:
+        with _Patched(now, _pick_value(rnd)):
+            n.handshake()
+    except Exception as e:
+        return f"handshake raised {type(e).__name__} although the peer's verack arrives" if done else None
+    if not done:
+        return "handshake returned although no verack arrived"
+    if n.socket.sent != want_sent:
+        return (f"handshake sent {len(n.socket.sent)} envelope(s); expected the default version message, then a verack per "
+                f"version and a pong per ping ({len(want_sent)} in all)")
+    if n.stream.read() != stream[used:]:
+        return "handshake left the stream at the wrong place"
+    return None
+
+
 def classify(v):
     """maps a violation to the key of a known finding, or None"""
     if v.get("kind") != "prop":
@@ -973,7 +1319,10 @@ PROPS = {"varint_rt": p_varint_rt, "varstr_rt": p_varstr_rt, "int_rt": p_int_rt,
          "object_session": p_object_session, "codec_session": p_codec_session,
          "version_protocol_layout": p_version_protocol_layout, "version_decodes": p_version_decodes,
          "version_default_nonce": p_version_default_nonce, "requests_decode": p_requests_decode,
-         "varint_strict": p_varint_strict, "int_byte": p_int_byte, "node_stream": p_node_stream}
+         "varint_strict": p_varint_strict, "int_byte": p_int_byte, "node_stream": p_node_stream,
+         "cfilter_key": p_cfilter_key, "defaults": p_defaults, "mid_stream": p_mid_stream,
+         "count_boundary": p_count_boundary, "headers_txcount": p_headers_txcount, "cfilter_eq": p_cfilter_eq,
+         "handshake": p_handshake}
 
 # ---------------------------------------------------------------- generators
 
@@ -997,6 +1346,12 @@ def rheader(r, ctx):
     return ctx.rbytes(80)
 
 
+# compact targets on both sides of "negative" and of 2^256 (SetCompact), and exponents below 3
+EDGE_BITS = [b"\x00\x01\x00\x22", b"\xff\x00\x00\x22", b"\x00\x00\x01\x21", b"\xff\xff\x00\x21", b"\xff\xff\x7f\x20",
+             b"\x00\x00\x80\x03", b"\x01\x00\x80\x03", b"\x01\x00\x00\x03", b"\x00\x00\x80\x20", b"\x00\x01\x80\x01",
+             b"\x00\x01\x80\x02", b"\x00\x01\x00\x02", b"\xff\xff\x7f\x00", b"\x00\x00\x00\xff", b"\x01\x00\x00\x23"]
+
+
 def _rfield(ctx, kind, i):
     """a value for attribute i of an object of this kind: mostly in range, sometimes a boundary / out of range"""
     r = ctx.rng
@@ -1010,7 +1365,8 @@ def _rfield(ctx, kind, i):
                 lambda: ctx.rbytes(r.choice([0, 1, 31, 32, 33, 100, r.randrange(0, 300)])),
                 lambda: r.randrange(4)][i]()
     if kind == K_BLOCK:
-        bits = lambda: ctx.rbytes(3) + bytes([r.choice([3, 4, 0x1d, 0x20, 0x21, 0x22, r.randrange(3, 60)])])  # noqa: E731
+        bits = lambda: r.choice(EDGE_BITS) if r.random() < 0.3 else \
+            ctx.rbytes(3) + bytes([r.choice([0, 1, 2, 3, 4, 0x1d, 0x20, 0x21, 0x22, r.randrange(3, 60)])])  # noqa: E731
         return [u32, h32, h32, u32, bits, lambda: ctx.rbytes(4)][i]()
     name = KINDS[kind][0]
     if name == "version":
@@ -1035,6 +1391,12 @@ def _rheader80(ctx, prev=None):
     raw[75] = r.choice([0x21, 0x22, 0x23, 0x30, 0x1f, 0x20, 0x20])     # exponent near 2^256: proof of work both ways
     if prev is not None:
         raw[4:36] = _h256(bytes(prev))
+    if r.random() < 0.5:                      # proof of work that holds: target 0x7fffff << 232, nonce ground here
+        raw[72:76] = b"\xff\xff\x7f\x20"
+        for _ in range(64):
+            if _le(_h256(bytes(raw))) <= 0x7fffff << 232:
+                break
+            raw[76:80] = ctx.rbytes(4)
     return bytes(raw)
 
 
@@ -1155,8 +1517,8 @@ def _rpayload(ctx, cmd):
     t, stop = r.randrange(256), ctx.rbytes(32)
     if cmd == b"cfilter":
         nit = r.randrange(0, 6)
-        fb = compactfilter.serialize_gcs(sorted(r.randrange(0, max(1, nit) * 784931) for _ in range(nit)))
-        raw = bytes([t]) + stop[::-1] + helper.encode_varstr(fb)
+        fb = _ref_gcs([r.randrange(0, max(1, nit) * 784931) for _ in range(nit)])
+        raw = bytes([t]) + stop[::-1] + _ref_varint(len(fb)) + fb
         return raw if not bad else raw[: r.randrange(0, len(raw))]
     hashes = [ctx.rbytes(32) for _ in range(r.randrange(0, 4))]
     if cmd == b"cfheaders":
@@ -1213,7 +1575,7 @@ def deep(ctx):
         lb = r.choice([0, 2 ** 32 - 1, r.getrandbits(32)])
         relay = r.randrange(2)
         f = [v, sv, ts, rs, rip, rp, ss, sip, sp, nonce, ua, lb, relay]
-        raw = i_version_serialize(*f)
+        raw = _lay_version(f)                 # what the library emits today (ports little-endian), laid out here
         rest = ctx.rbytes(r.randrange(0, 4))
         yield ("corr", "version_serialize", f)
         yield ("corr", "p2p_version_decode", [raw + rest])
@@ -1232,7 +1594,7 @@ def deep(ctx):
             g[4] = ctx.rbytes(r.choice([0, 3, 5, 16]))
             g[9] = ctx.rbytes(r.choice([0, 7, 8, 9]))
             yield ("corr", "version_serialize", g)
-            yield ("corr", "p2p_version_decode", [i_version_serialize(*g)])
+            yield ("corr", "p2p_version_decode", [_lay_version(g)])
     # --- default VersionMessage(): timestamp from time.time(), nonce from randint(0, 2**64 - 1); 2**64 (the inclusive
     #     bound before the fix 7914d9d) is outside what randint can return and is kept as an int_to_little_endian case
     yield ("corr", "randint_bounds", [])
@@ -1253,17 +1615,17 @@ def deep(ctx):
         rest = ctx.rbytes(r.randrange(0, 4))
         yield ("prop", "requests_decode", [v, h1, h2, types, ids, t, height, rest])
         for nh in (1, 1, r.choice([0, 2, 3, 252, 253, 65536, 2 ** 32, 2 ** 64 - 1])):
-            raw = i_getheaders_serialize(v, nh, h1, h2)
+            raw = struct.pack("<I", v) + _ref_varint(nh) + h1[::-1] + h2[::-1]
             ctx.label("getheaders/num_hashes=1" if nh == 1 else "getheaders/num_hashes!=1 (count does not match)")
             yield ("corr", "p2p_getheaders_decode", [raw + rest])
             yield ("corr", "p2p_getheaders_decode", [raw[: r.randrange(0, len(raw))]])
-        raw = i_getdata_serialize(types, ids)
+        raw = _lay_getdata(zip(types, ids))
         yield ("corr", "p2p_getdata_decode", [raw + rest])
         yield ("corr", "p2p_getdata_decode", [raw[: r.randrange(0, len(raw))]])
-        raw = i_getcfilters_serialize(t, height, h1)
+        raw = bytes([t]) + struct.pack("<I", height) + h1[::-1]
         yield ("corr", "p2p_getcfilters_decode", [raw + rest])
         yield ("corr", "p2p_getcfilters_decode", [raw[: r.randrange(0, len(raw))]])
-        raw = i_getcfcheckpt_serialize(t, h1)
+        raw = bytes([t]) + h1[::-1]
         yield ("corr", "p2p_getcfcheckpt_decode", [raw + rest])
         yield ("corr", "p2p_getcfcheckpt_decode", [raw[: r.randrange(0, len(raw))]])
         for fn in ("p2p_getheaders_decode", "p2p_getdata_decode"):
@@ -1285,15 +1647,16 @@ def deep(ctx):
     for _ in range(ctx.n(30, 600)):
         def one():
             nit = r.randrange(0, 5)
-            fb = compactfilter.serialize_gcs(sorted(r.randrange(0, max(1, nit) * 784931) for _ in range(nit)))
+            fb = _ref_gcs([r.randrange(0, max(1, nit) * 784931) for _ in range(nit)])
             return [r.randrange(3), ctx.rbytes(32), fb]
         a = one()
         b = list(a) if r.random() < 0.5 else one()
         if r.random() < 0.4:
             i = r.randrange(3)
             b[i] = one()[i]
-        ra, rb = (bytes([m[0]]) + m[1][::-1] + helper.encode_varstr(m[2]) for m in (a, b))
+        ra, rb = (bytes([m[0]]) + m[1][::-1] + _ref_varint(len(m[2])) + m[2] for m in (a, b))
         ctx.label("cfilter/__eq__ equal" if a == b else "cfilter/__eq__ different")
+        yield ("prop", "cfilter_eq", [a, b])
         yield ("corr", "cfilter_eq", [ra, rb + ctx.rbytes(r.randrange(0, 3))])
         yield ("corr", "cfilter_hash", [ra])
         yield ("corr", "cfilter_eq", [ra, rb[: r.randrange(0, len(rb))]])
@@ -1355,6 +1718,165 @@ def deep(ctx):
         stream = b"".join(_lay_env((c, pl, magic)) for c, pl in peer) + ctx.rbytes(r.randrange(0, 4))
         ctx.label("node/handshake")
         yield ("corr", "node_handshake", [net, now, rr, stream])
+        if 0 <= now < 2 ** 64 and 0 <= rr < 2 ** 64:
+            yield ("prop", "handshake", [net, now, rr, [list(x) for x in peer], stream[sum(24 + len(pl) for _, pl in peer):]])
+
+
+# ---------------------------------------------------------------- hardening (mutation triage): generators
+
+def hardening(ctx):
+    r = ctx.rng
+    # --- every integer codec on both sides of every width boundary (and -1, the top bit, a leading 0x01 byte)
+    for l in (0, 1, 2, 3, 4, 5, 8, 9, 16, 32, 33):
+        top = 256 ** l
+        for n in sorted({-1, 0, 1, top - 2, top - 1, top, top + 1, top // 2 - 1, top // 2, top // 256, top // 256 - 1, -top}):
+            ctx.label("int-codec/width-boundary " + ("fits" if 0 <= n < top else "does not fit"))
+            yield ("corr", "int_to_le", [n, l])
+            yield ("corr", "int_to_be", [n, l])
+            yield ("prop", "int_rt", [n, l])
+    yield ("corr", "int_to_le", [1, -1])
+    yield ("corr", "int_to_be", [1, -1])
+    for b in [b"", b"\x00", b"\x01", b"\x80", b"\xff", b"\x00\x01", b"\x01\x00", b"\x00\x00\x01", b"\x01\x00\x00",
+              b"\xff" * 8, b"\x00" * 8 + b"\x01", b"\x01" + b"\x00" * 8, b"\x80" + b"\x00" * 31, b"\x00" * 31 + b"\x80"]:
+        ctx.label("int-codec/decode leading-or-trailing-zero bytes")
+        yield ("corr", "from_le", [b])
+        yield ("corr", "from_be", [b])
+        yield ("prop", "codec_session", [[[b"fle", b], [b"fbe", b], [b"le", _le(b), len(b)], [b"be", _le(b), len(b)]]])
+    for n in (-1, 0, 1, 254, 255, 256, 257, -256, 2 ** 63):
+        yield ("corr", "int_to_byte", [n])
+        yield ("prop", "int_byte", [n])
+    for n in (0xfb, 0xfc, 0xfd, 0xfe, 0xff, 0x100, 0xfffe, 0xffff, 0x10000, 0x10001, 2 ** 32 - 1, 2 ** 32, 2 ** 32 + 1,
+              2 ** 64 - 1, 2 ** 64, -1):
+        # compact-size in the middle of a stream; its encodings cut short by one byte; non-canonical spellings of it
+        if 0 <= n < 2 ** 64:
+            e = _ref_varint(n)
+            yield ("prop", "mid_stream", [0, 0, ctx.rbytes(r.randrange(1, 9)), e, ctx.rbytes(r.randrange(0, 3))])
+            yield ("corr", "read_varint", [e])
+            yield ("corr", "read_varint", [e[:-1]])
+            for w, f in ((2, 0xfd), (4, 0xfe), (8, 0xff)):
+                if n < 256 ** w:
+                    yield ("corr", "read_varint", [bytes([f]) + n.to_bytes(w, "little") + b"\x07"])
+                    yield ("prop", "varint_strict", [bytes([f]) + n.to_bytes(w, "little") + b"\x07"])
+        yield ("prop", "varint_rt", [n, b"\xfd\x00"])
+        yield ("prop", "codec_session", [[[b"vi", n], [b"vi", n + 1], [b"vi", n - 1]]])
+    # --- defaults of every message class, module constants, both entry points of parse_header
+    for i in range(ctx.n(6, 60)):
+        ctx.label("defaults/constructors-with-required-arguments-only")
+        yield ("prop", "defaults", [ctx.rbytes(32), ctx.rbytes(32), r.choice([0, 1, 2 ** 64 - 1, r.getrandbits(40)]),
+                                    ctx.rbytes(8), ctx.rbytes(r.choice([0, 1, 32, 100]))])
+    # --- cfilter: key of the parsed filter and membership through the message (BIP158 built independently)
+    for i in range(ctx.n(24, 400)):
+        bh = bytearray(ctx.rbytes(32))
+        if i % 4 == 1:                      # the bytes around the 16-byte cut carry particular values
+            for k in (15, 16, 17, 14):
+                bh[k] = r.choice([0, 1, 0x80, 0xff])
+        if i % 8 == 2:
+            bh = bytearray(b"\x00" * 32)
+        if i % 8 == 6:
+            bh[:16] = bh[16:]
+        nit = [0, 1, 2, 3, 5, 20][i % 6] if i >= 2 else [0xfc, 0xfd][i]
+        items = [ctx.rbytes(r.choice([0, 1, 7, 8, 9, 22, 25, 34, 64])) for _ in range(nit)]
+        if nit >= 3 and i % 3 == 0:
+            items[1] = items[0]             # the same element twice (N counts it twice)
+        others = [ctx.rbytes(r.randrange(0, 40)) for _ in range(4 if nit > 50 else 12)]
+        ctx.label(f"cfilter/key+membership N={'>=252' if nit >= 252 else nit}")
+        yield ("prop", "cfilter_key", [r.choice([0, 0, 1, 255]), bytes(bh), items if nit < 50 else items[:1] * nit, others,
+                                       ctx.rbytes(r.choice([0, 1, 5, 33])), ctx.rbytes(r.randrange(0, 4))])
+    # --- cfilter messages that differ in exactly one field (type / first or last byte of the hash / filter bytes)
+    for k in range(ctx.n(3, 30)):
+        a = [r.choice([0, 1, 255]), ctx.rbytes(32), _ref_gcs([r.randrange(0, 3 * GCS_M) for _ in range(3)])]
+        for i in range(4):
+            b = list(a)
+            if i == 0:
+                b[0] = (a[0] + r.choice([1, 255])) % 256
+            elif i < 3:
+                pos = 0 if i == 1 else 31
+                b[1] = a[1][:pos] + bytes([a[1][pos] ^ (1 << r.randrange(8))]) + a[1][pos + 1:]
+            else:
+                b[2] = _ref_gcs([r.randrange(0, 3 * GCS_M) for _ in range(3)])
+            ctx.label("cfilter/__eq__ one field different")
+            yield ("prop", "cfilter_eq", [a, b])
+            yield ("prop", "cfilter_eq", [a, list(a)])
+            ra, rb = (bytes([m[0]]) + m[1][::-1] + _ref_varint(len(m[2])) + m[2] for m in (a, b))
+            yield ("corr", "cfilter_eq", [ra, rb])
+    # --- every parser from the middle of a stream
+    for i in range(ctx.n(30, 600)):
+        net = r.randrange(4)
+        pre = ctx.rbytes(r.choice([1, 2, 4, 24, 80, 81]))
+        rest = ctx.rbytes(r.choice([0, 1, 3, 9]))
+        hs = [ctx.rbytes(80) for _ in range(r.choice([0, 1, 2, 3]))]
+        hashes = [ctx.rbytes(32) for _ in range(r.choice([0, 1, 2, 3]))]
+        fb = _ref_gcs([r.randrange(0, 5 * GCS_M) for _ in range(r.randrange(0, 5))])
+        vs = ctx.rbytes(r.choice([0, 1, 0xfc, 0xfd, 300]))
+        t, stop, prev = r.randrange(256), ctx.rbytes(32), ctx.rbytes(32)
+        raws = [None, _ref_varint(len(vs)) + vs, _lay_env((rcmd(r), ctx.rbytes(r.randrange(0, 50)), REF_MAGIC[net])),
+                ctx.rbytes(80), _ref_varint(len(hs)) + b"".join(h + b"\x00" for h in hs), ctx.rbytes(8), ctx.rbytes(8),
+                bytes([t]) + stop + _ref_varint(len(fb)) + fb,
+                bytes([t]) + stop + prev + _ref_varint(len(hashes)) + b"".join(hashes),
+                bytes([t]) + stop + _ref_varint(len(hashes)) + b"".join(hashes), b""]
+        for kind in range(1, 11):
+            raw = raws[kind]
+            if r.random() < 0.15 and raw:
+                raw = raw[: r.randrange(0, len(raw))]
+                rest = b""
+            ctx.label("mid-stream/parser after leading bytes")
+            yield ("prop", "mid_stream", [kind, net, pre, raw, rest])
+    # --- item COUNTS at the compact-size boundaries (through the model up to 0x100, property only for 0xffff/0x10000)
+    for count in (0, 1, 2, 0xfc, 0xfd, 0xfe, 0x100):
+        seed = ctx.rbytes(4)
+        for kind in range(5):
+            ctx.label("count-boundary/<=0x100")
+            yield ("prop", "count_boundary", [kind, count, seed, ctx.rbytes(r.randrange(0, 3))])
+        it = _items32(seed, count)
+        dup = it[:1] * count                # the same item in every position
+        hd = _items32(seed, count, 80)
+        t, stop, prev = r.randrange(256), ctx.rbytes(32), ctx.rbytes(32)
+        yield ("corr", "headers_parse", [_ref_varint(count) + b"".join(h + b"\x00" for h in hd) + b"\x01"])
+        yield ("corr", "cfheaders_parse", [bytes([t]) + stop + prev + _ref_varint(count) + b"".join(it)])
+        yield ("corr", "cfheaders_parse", [bytes([t]) + stop + prev + _ref_varint(count) + b"".join(dup)])
+        yield ("corr", "cfcheckpt_parse", [bytes([t]) + stop + _ref_varint(count) + b"".join(it) + b"\x02\x03"])
+        yield ("corr", "cfcheckpt_parse", [bytes([t]) + stop + _ref_varint(count + 1) + b"".join(it)])   # one short
+        yield ("corr", "getdata_serialize", [[r.choice([1, 2, 3, 4, 0x40000001]) for _ in it], it])
+        yield ("corr", "getdata_serialize", [[2] * count, dup])
+    for count in (0xffff, 0x10000):
+        for kind in ((0, 1, 2, 3, 4) if ctx.tier == "thorough" else (0, 1, 2, 4)):
+            ctx.label("count-boundary/0xffff-0x10000")
+            yield ("prop", "count_boundary", [kind, count, ctx.rbytes(4), b"\x09"])
+    for ln in (0xffff, 0x10000):
+        ua = ctx.rbytes(ln)
+        f = [70015, 0, 1, 0, ctx.rbytes(4), 8333, 0, ctx.rbytes(4), 8333, ctx.rbytes(8), ua, 0, 1]
+        yield ("corr", "version_serialize", f)
+        yield ("prop", "version_decodes", f + [b"\x00"])
+    # --- headers message: a non-zero transaction count after the first / a middle / the last header
+    for nh in (1, 2, 3, 4):
+        hdrs = [ctx.rbytes(80) for _ in range(nh)]
+        if nh == 4:
+            hdrs[2] = hdrs[1]
+        for j in range(nh):
+            for cnt in (b"\x01", b"\xfc", b"\xfd\x00\x00", b"\xfd\x01\x00", b"\xfe\x00\x00\x00\x00", b"\xff" + b"\x00" * 7 + b"\x01",
+                        b"\x00"):
+                ctx.label("headers/transaction-count after header first/middle/last")
+                rest = ctx.rbytes(r.randrange(0, 3))
+                yield ("prop", "headers_txcount", [hdrs, j, cnt, rest])
+                yield ("corr", "headers_parse", [_ref_varint(nh) + b"".join(
+                    h + (cnt if i == j else b"\x00") for i, h in enumerate(hdrs)) + rest])
+    # --- block headers whose compact target sits on an edge: target(), check_pow() and the header list validity
+    for k, bits in enumerate(EDGE_BITS):
+        f = [r.getrandbits(32), ctx.rbytes(32), ctx.rbytes(32), r.getrandbits(32), bits, ctx.rbytes(4)]
+        ctx.label("block-header/compact-target-edge")
+        yield ("prop", "object_session", [[[b"new", 0, K_BLOCK, f], [b"pow", 0], [b"hash", 0],
+                                           [b"set", 0, 4, EDGE_BITS[(k + 1) % len(EDGE_BITS)]], [b"pow", 0], [b"rt", 0, 0],
+                                           [b"newheaders", 1, [_lay_block(f), _rheader80(ctx)]], [b"valid", 1]]])
+    # --- envelopes: declared length at the 32-bit boundary, payload-length field boundaries from the middle of a stream
+    for (cmd, payload, declared) in [(b"ping", b"12345678", 2 ** 32 - 1), (b"ping", b"", 2 ** 32 - 1), (b"", b"", 0),
+                                     (b"abcdefghijkl", b"x" * 255, 255), (b"abcdefghijkl", b"x" * 256, 256),
+                                     (b"a", b"x" * 256, 0), (b"a", b"x" * 257, 1)]:
+        net = r.randrange(4)
+        yield ("prop", "codec_session", [[[b"envp", net, net, cmd, payload, declared, 0, b"tail"],
+                                          [b"envp", net, net, cmd, payload, len(payload), 0, b""]]])
+        raw = REF_MAGIC[net] + cmd.ljust(12, b"\x00") + struct.pack("<I", declared) + _h256(payload[:declared])[:4] + payload
+        yield ("corr", "env_parse", [net, raw])
+        yield ("prop", "mid_stream", [2, net, ctx.rbytes(5), raw, b""])
 
 
 def histories(ctx):
@@ -1404,7 +1926,7 @@ def generate(ctx):
         b = ctx.rbytes(ln)
         yield ("corr", "encode_varstr", [b])
         yield ("prop", "varstr_rt", [b, ctx.rbytes(r.randrange(0, 5))])
-        e = helper.encode_varstr(b) + ctx.rbytes(r.randrange(0, 5))
+        e = _ref_varint(len(b)) + b + ctx.rbytes(r.randrange(0, 5))
         yield ("corr", "read_varstr", [e])
         if ln < 600:
             yield ("corr", "read_varstr", [e[: r.randrange(0, len(e) + 1)]])
@@ -1429,21 +1951,18 @@ def generate(ctx):
         envs.append((net, cmd, payload))
         yield ("corr", "env_serialize", [net, cmd, payload])
         yield ("prop", "env_rt", [net, cmd, payload, rest])
-        raw = i_env_serialize(net, cmd, payload) + rest
+        raw = _lay_env((cmd, payload, REF_MAGIC[net])) + rest
         yield ("corr", "env_parse", [net, raw])
         yield ("corr", "env_parse", [(net + 1) % 4, raw])
         ctx.label("envelope/payload>=64k" if ln >= 65536 else "envelope/small")
     # commands with NULs inside / at the ends, over-long commands (model only: what the codec does)
     for cmd in [b"\x00abc", b"abc\x00", b"a\x00b", b"\x00", b"\x00" * 12, b"abcdefghijklm", b"a" * 20]:
         yield ("corr", "env_serialize", [0, cmd, b"xyz"])
-        try:
-            yield ("corr", "env_parse", [0, i_env_serialize(0, cmd, b"xyz")])
-        except Exception:
-            pass
+        yield ("corr", "env_parse", [0, _lay_env((cmd, b"xyz", REF_MAGIC[0]))])
     # every truncation offset and every single-byte corruption of small envelopes
     small = [e for e in envs if len(e[2]) <= 40][: ctx.n(6, 60)]
     for (net, cmd, payload) in small:
-        raw = i_env_serialize(net, cmd, payload)
+        raw = _lay_env((cmd, payload, REF_MAGIC[net]))
         for pos in range(len(raw)):
             yield ("prop", "env_reject", [net, cmd, payload, 0, pos, 0])
             yield ("corr", "env_parse", [net, raw[:pos]])
@@ -1460,8 +1979,7 @@ def generate(ctx):
             continue
         cut = r.randrange(0, len(payload))
         part = payload[:cut]
-        raw = network.MAGIC[NETS[net]] + cmd.ljust(12, b"\x00") + struct.pack("<I", len(payload)) + \
-            helper.hash256(part)[:4] + part
+        raw = REF_MAGIC[net] + cmd.ljust(12, b"\x00") + struct.pack("<I", len(payload)) + _h256(part)[:4] + part
         ctx.label("envelope/short-payload-matching-checksum")
         yield ("prop", "env_short", [net, cmd, payload, cut])
         yield ("corr", "env_parse", [net, raw])
@@ -1473,13 +1991,12 @@ def generate(ctx):
         yield ("prop", "header_rt", [raw])
         yield ("corr", "parse_header", [raw + ctx.rbytes(r.randrange(0, 4))])
         yield ("corr", "parse_header", [raw[: r.randrange(0, 81)]])
-        h = block.Block.parse_header(BytesIO(raw))
-        v, t = h.version, h.timestamp
+        v, t = _le(raw[:4]), _le(raw[68:72])
         if r.random() < 0.2:
             v = r.choice([-1, 2 ** 32, 2 ** 32 - 1, 0])
         if r.random() < 0.2:
             t = r.choice([-1, 2 ** 32, 2 ** 32 - 1, 0])
-        yield ("corr", "serialize_header", [v, h.prev_block, h.merkle_root, t, h.bits, h.nonce])
+        yield ("corr", "serialize_header", [v, raw[4:36][::-1], raw[36:68][::-1], t, raw[72:76], raw[76:80]])
     # --- fixed-layout messages
     for _ in range(ctx.n(60, 2000)):
         v = r.choice([70015, 0, 2 ** 32 - 1, r.getrandbits(32)])
@@ -1508,7 +2025,7 @@ def generate(ctx):
     for _ in range(ctx.n(60, 1500)):
         nh = r.choice([0, 1, 2, 3, 5])
         hdrs = [ctx.rbytes(80) for _ in range(nh)]
-        raw = helper.encode_varint(nh) + b"".join(h + b"\x00" for h in hdrs)
+        raw = _ref_varint(nh) + b"".join(h + b"\x00" for h in hdrs)
         yield ("corr", "headers_parse", [raw + ctx.rbytes(r.randrange(0, 3))])
         if raw:
             bad = bytearray(raw)
@@ -1521,18 +2038,18 @@ def generate(ctx):
         stop, prev = ctx.rbytes(32), ctx.rbytes(32)
         nhash = r.choice([0, 1, 2, 5, 252, 253]) if r.random() < 0.2 else r.randrange(0, 6)
         hashes = [ctx.rbytes(32) for _ in range(nhash)]
-        raw = bytes([t]) + stop[::-1] + prev + helper.encode_varint(nhash) + b"".join(hashes)
+        raw = bytes([t]) + stop[::-1] + prev + _ref_varint(nhash) + b"".join(hashes)
         yield ("corr", "cfheaders_parse", [raw + ctx.rbytes(r.randrange(0, 3))])
         yield ("corr", "cfheaders_parse", [raw[: r.randrange(0, len(raw))]])
-        raw = bytes([t]) + stop[::-1] + helper.encode_varint(nhash) + b"".join(hashes)
+        raw = bytes([t]) + stop[::-1] + _ref_varint(nhash) + b"".join(hashes)
         yield ("corr", "cfcheckpt_parse", [raw + ctx.rbytes(r.randrange(0, 3))])
         yield ("corr", "cfcheckpt_parse", [raw[: r.randrange(0, len(raw))]])
         nit = r.randrange(0, 12)
         fitems = sorted(r.randrange(0, max(1, nit) * 784931) for _ in range(nit))
         if nit > 2 and r.random() < 0.3:
             fitems[1] = fitems[0]
-        fb = compactfilter.serialize_gcs(sorted(fitems))
-        raw = bytes([t]) + stop[::-1] + helper.encode_varstr(fb)
+        fb = _ref_gcs(fitems)
+        raw = bytes([t]) + stop[::-1] + _ref_varint(len(fb)) + fb
         yield ("corr", "cfilter_parse", [raw + ctx.rbytes(r.randrange(0, 3))])
         yield ("corr", "cfilter_parse", [raw[: r.randrange(0, len(raw))]])
         bad = bytearray(raw)
@@ -1541,5 +2058,7 @@ def generate(ctx):
         yield ("prop", "msgs_rt", [ctx.rbytes(8), hdrs, t, stop, prev, hashes, sorted(set(fitems))])
     # --- deepening: protocol decoders, default version message, SimpleNode on an in-memory stream
     yield from deep(ctx)
+    # --- hardening after the mutation triage: constructed boundary classes
+    yield from hardening(ctx)
     # --- histories: objects queried repeatedly and edited in between; module-level codecs in arbitrary order
     yield from histories(ctx)
